@@ -596,6 +596,9 @@ macro_rules! impl_rem_assign_scalar {
             #[inline]
             fn rem_assign(&mut self, other: &BigUint) {
                 *self = match other.$to_scalar() {
+                    // `other` exceeds the scalar's positive range, so `self` is already the
+                    // remainder, unless `self` is a signed `MIN` whose magnitude equals `other`.
+                    None if crate::BigInt::from(*self).magnitude() == other => 0,
                     None => *self,
                     Some(0) => panic!("attempt to divide by zero"),
                     Some(v) => *self % v
